@@ -56,7 +56,7 @@ package rsyncopts
 //@ spec func specialsSaid(o: *rsyncopts.Options): bool = (o.preserve_specials != 0) != (o.preserve_devices != 0)
 //@ func (*rsyncopts.Options).ServerOptions
 //@   ensures[C14] [server-then-sender] result[0] == "--server" && (o.am_sender == 0 ==> result[1] == "--sender")
-//@   ensures[C14] [letters-exactly-for-set-options] anyLetter(o) ==> (hasLetter(result[lettersAt(o)], 110) <==> o.dry_run != 0) && (hasLetter(result[lettersAt(o)], 108) <==> o.preserve_links != 0) && (hasLetter(result[lettersAt(o)], 111) <==> o.preserve_uid != 0) && (hasLetter(result[lettersAt(o)], 103) <==> o.preserve_gid != 0) && (hasLetter(result[lettersAt(o)], 68) <==> o.preserve_devices != 0) && (hasLetter(result[lettersAt(o)], 116) <==> o.preserve_mtimes != 0) && (hasLetter(result[lettersAt(o)], 112) <==> o.preserve_perms != 0) && (hasLetter(result[lettersAt(o)], 114) <==> o.recurse != 0) && (hasLetter(result[lettersAt(o)], 99) <==> o.always_checksum != 0) && (hasLetter(result[lettersAt(o)], 73) <==> o.ignore_times != 0) && (hasLetter(result[lettersAt(o)], 117) <==> o.update_only != 0)
+//@   ensures[C14] [letters-exactly-for-set-options] anyLetter(o) ==> (hasLetter(result[lettersAt(o)], 110) <==> o.dry_run != 0) && (hasLetter(result[lettersAt(o)], 108) <==> o.preserve_links != 0) && (hasLetter(result[lettersAt(o)], 111) <==> o.preserve_uid != 0) && (hasLetter(result[lettersAt(o)], 103) <==> o.preserve_gid != 0) && (hasLetter(result[lettersAt(o)], 68) <==> o.preserve_devices != 0) && (hasLetter(result[lettersAt(o)], 116) <==> o.preserve_mtimes != 0) && (hasLetter(result[lettersAt(o)], 112) <==> o.preserve_perms != 0) && (hasLetter(result[lettersAt(o)], 114) <==> o.recurse != 0) && (hasLetter(result[lettersAt(o)], 99) <==> o.always_checksum != 0) && (hasLetter(result[lettersAt(o)], 73) <==> o.ignore_times != 0) && (hasLetter(result[lettersAt(o)], 117) <==> o.update_only != 0) && (hasLetter(result[lettersAt(o)], 118) <==> o.verbose != 0)
 //@   ensures[C14] [specials-said-when-they-differ-from-devices] specialsSaid(o) ==> result[longAt(o)] == ite(o.preserve_specials != 0, "--specials", "--no-specials")
 //@   ensures[C14] [delete-reaches-the-receiving-server] o.am_sender != 0 && o.delete_mode != 0 ==> result[longAt(o) + b2i(specialsSaid(o))] == "--delete"
 //@   ensures[C14] [nothing-else] len(result) == longAt(o) + b2i(specialsSaid(o)) + b2i(o.am_sender != 0 && o.delete_mode != 0)
